@@ -27,22 +27,22 @@ func readMultipartInsert(r *http.Request) (*storage.Object, []byte, error) {
 
 	reader := multipart.NewReader(r.Body, boundary)
 
-	readPart := func() ([]byte, error) {
+	readPart := func() ([]byte, string, error) {
 		part, err := reader.NextPart()
 		if err != nil {
-			return nil, fmt.Errorf("failed to get multipart: %w", err)
+			return nil, "", fmt.Errorf("failed to get multipart: %w", err)
 		}
 
 		b, err := io.ReadAll(part)
 		if err != nil {
-			return nil, fmt.Errorf("failed to get read multipart: %w", err)
+			return nil, "", fmt.Errorf("failed to get read multipart: %w", err)
 		}
 
-		return b, nil
+		return b, part.Header.Get("Content-Type"), nil
 	}
 
 	// read the first part to get the storage.Object (in json)
-	b, err := readPart()
+	b, _, err := readPart()
 	if err != nil {
 		return nil, nil, fmt.Errorf("failed to read first part of body: %w", err)
 	}
@@ -54,9 +54,14 @@ func readMultipartInsert(r *http.Request) (*storage.Object, []byte, error) {
 	}
 
 	// read the next part to get the file contents
-	contents, err := readPart()
+	contents, contentType, err := readPart()
 	if err != nil {
 		return nil, nil, fmt.Errorf("failed to read second part of body: %w", err)
+	}
+
+	// The media part's Content-Type is the object's content type unless the metadata names one.
+	if obj.ContentType == "" {
+		obj.ContentType = contentType
 	}
 
 	obj.Size = uint64(len(contents))
